@@ -158,7 +158,12 @@ class Monitor(object):
                     return 'event %d rejected by a listener of pool %d was re-buffered by another pool' % (vid, pi)
                 if not any(int(x.split()[1]) == pi and int(x.replace('%Z', '').split()[2]) == vid for x in reb):
                     return 'event %d rejected by a listener of pool %d was not returned to its queue' % (vid, pi)
-                if op[0] in ('feed', 'finish') and (not post[pi][0] or post[pi][0][0] != vid):
+                # at the head of the owner's queue, unless something was queued or dropped there afterwards
+                # (finish(): a rejection during drain() is followed by the state-change notifications)
+                k = max(j for j, x in enumerate(effs) if x.startswith('ERebuffered %d ' % pi)
+                        and int(x.replace('%Z', '').split()[2]) == vid)
+                later = [x for x in effs[k + 1:] if x.startswith(('EOffered %d ' % pi, 'EDiscard %d ' % pi, 'ERebuffered %d ' % pi))]
+                if op[0] in ('feed', 'finish') and not later and (not post[pi][0] or post[pi][0][0] != vid):
                     return 'event %d rejected by a listener of pool %d is not at the head of its queue' % (vid, pi)
         if op[0] == 'feed':
             for pj in range(n):
